@@ -216,7 +216,7 @@ def de_rules(ctx, flavours):
         closures = [b for q, b in F.bodies.items() if q.startswith(vs['q'] + '::{closure')]
         # DE1
         why = []
-        conn = [(bi, t) for bi, t in calls_in(vs) if t.get('local') and t['res'] == fl + '::node::Node::connect']
+        conn = [(bi, t) for bi, t in calls_in(vs) if t.get('local') and t['res'] in (fl + '::node::Node::connect', fl + '::node::Node::try_connect')]
         gets = [(bi, t) for bi, t in calls_in(vs) if t.get('local') and t['res'] == fl + '::Graph::get']
         if not conn:
             why.append('no connect call')
@@ -274,7 +274,7 @@ def de_rules(ctx, flavours):
             out.append(Obl('DE2', b['q'], b['span'], 'no unwrap / expect / panic / indexing / arithmetic assert in the reader', not bad, 'none' if not bad else ', '.join(bad)))
         # DE3: only insert/connect build the graph; arguments come from the document
         why = []
-        allowed = {fl + '::Graph::new', fl + '::Graph::insert', fl + '::Graph::get', fl + '::node::Node::new', fl + '::node::Node::connect'}
+        allowed = {fl + '::Graph::new', fl + '::Graph::with_capacity', fl + '::Graph::insert', fl + '::Graph::get', fl + '::Graph::contains', fl + '::node::Node::new', fl + '::node::Node::connect', fl + '::node::Node::try_connect'}
         for bi, t in calls_in(vs, lambda t: t.get('local')):
             if t['res'] not in allowed and t['res'] in F.bodies and not t['res'].startswith(vs['q']):
                 why.append('reader calls ' + t['res'])
@@ -327,3 +327,25 @@ def _exit_is_error(F, b, y):
             return False
         st.extend(cfg.succ[x])
     return hit
+
+
+def reader_reach(ctx, flavours):
+    """crate-local functions reachable from deserialize / visit_seq (call graph incl. closures and trait impls std may call back)"""
+    F, G = ctx.F, ctx.G()
+    reach = set()
+    for fl in flavours:
+        dec, ser, de, vs = _serde_bodies(F, fl)
+        st = [b['q'] for b in (de, vs) if b]
+        while st:
+            q = st.pop()
+            if q in reach:
+                continue
+            reach.add(q)
+            st.extend(G.cg.get(q, ()))
+    return reach
+
+
+def g3_reader(ctx, flavours):
+    from . import rules_guard as rg
+    reach = reader_reach(ctx, flavours)
+    return [o for o in rg.g3(ctx, flavours) if o['func'] in reach]
